@@ -667,13 +667,22 @@ ASSUMPTIONS = [
     'POST (a second evaluation before /scheduled is updated) is environment behaviour, not excluded by the code',
     'alert_f and zkutils.update do not raise (alert_f raising after a successful POST would skip the token deduction)',
     'instance ids are zero padded to 10 digits, so the string order of the real sorted() is the numeric (age) order',
-    'the cell API (api/instance.py) is the environment: its outcome is oracle data; its quotas are not part of the theorems',
+    'the cell API (api/instance.py) is the environment of the monitor: its outcome is oracle data (its quota check is Props/C20Quota.v)',
 ]
 
 
 def run(tier, seed):
+    # the instance API quotas (third anchored mechanism): Api/Quota.v, Props/C20Quota.v, harness/props/quota.py
+    from . import quota
+
+    def extra(r, cases, obs):
+        cov = _extra(r, cases, obs)
+        u = quota.stage(r, seed, tier)
+        cov['extra_obligations'] = cov.get('extra_obligations', 0) + u.pop('quota_obligations')
+        cov.update(u)
+        return cov
     core.standard_run(PID, tier, seed, {
-        'model_vos': ['Mon/AppMon', 'Gen/Tables'], 'table_sections': ['c20', 'source_shape'],
+        'model_vos': ['Mon/AppMon', 'Gen/Tables'], 'table_sections': ['c20', 'source_shape'] + list(quota.SECTIONS),
         'preamble': PREAMBLE, 'run_fn': RUN_FN, 'in_type': IN_TYPE,
         'gen_case': gen_case, 'impl_run': impl_run, 'expected': expected, 'case_term': case_term,
         'oracle': oracle, 'nontrivial': nontrivial,
@@ -685,11 +694,15 @@ def run(tier, seed):
                 'watch lag between evaluations, monitors reconfigured / removed / given invalid data, every REST call '
                 'answered by success or one of the handled exception classes; non-trivial = a successful create plus at '
                 'least two of {delete, failed call, rate limited, suspended monitor present}',
-        'trusted': TRUSTED, 'assumptions': ASSUMPTIONS, 'anchors': ANCHORS, 'extra': _extra,
+        'trusted': TRUSTED + list(quota.TRUSTED), 'assumptions': ASSUMPTIONS + list(quota.ASSUMPTIONS),
+        'anchors': ANCHORS + ['lib/python/treadmill/scheduler/master.py'], 'extra': extra,
     })
 
 
 def replay_case(case):
+    if isinstance(case, dict) and case.get('engine') == 'E-quota':
+        from . import quota
+        return quota.replay_case(case)
     obs = impl_run(case)
     v = oracle(case, obs)
     return v[0] if v else None
